@@ -314,3 +314,7 @@ for _name in ("normal", "lognormal", "log-normal"):
                                        notes="column-wise sample standard deviation of g(values) about the column mean, n-1 denominator"),
                               module_env=dict(_env, _nanmean_weighted=FuncV(_mean2_call, "_nanmean_weighted")),
                               label=f"hvsrpy.statistics._nanstd_weighted[{_name},axis=0]", clauses=["standard deviation curve estimator"]))
+
+# the constructors of the result objects (contracts/ctor_hvsr.py): a new HvsrTraditional accepts every window (the statistics of a fresh result are over all windows)
+import contracts.ctor_hvsr as _CTOR
+TASKS += [t for t in _CTOR.TASKS if "HvsrTraditional.__init__" in t.label]
